@@ -1,5 +1,5 @@
 (* C20 — silent peers are dropped, live ones are kept and kept alive. *)
-From Rdest Require Import Base Consts Wire Manager Handler HandlerProofs MgrProofs.
+From Rdest Require Import Base Consts Wire Manager Handler HandlerProofs MgrProofs TraceProofs.
 Open Scope N_scope.
 
 (* a connection on which nothing but keep-alives (or nothing) arrives: the first two timer ticks (120 s, 240 s)
@@ -28,6 +28,27 @@ Theorem C20_emit : forall sha1 cf disk ovf s r, h_keep_alive s <> 2 ->
   hstep sha1 cf disk ovf s ETick r = HCont (set_ka s (h_keep_alive s + 1)) [ASend KeepAlive].
 Proof. exact tick_emits. Qed.
 
+(* OVER WHOLE EVENT SEQUENCES of one connection task (run: handle the events in order, None once one ends it):
+   a connection that received a frame other than a keep-alive since the last tick survives the next tick and emits a
+   keep-alive -- whatever else happened before and after that frame (any frames, broadcasts, manager answers), so a
+   connection that gets such a frame in every interval is never closed for inactivity, however many intervals pass *)
+Theorem C20_live_interval_survives : forall sha1 cf disk ovf s before m r after s' r2,
+  h_hs_done s = true -> m <> KeepAlive -> no_tick after ->
+  run sha1 cf disk ovf s (before ++ (EFrame m, r) :: after) = Some s' ->
+  hstep sha1 cf disk ovf s' ETick r2 = HCont (set_ka s' 1) [ASend KeepAlive].
+Proof. exact live_interval_survives. Qed.
+(* silence: from a count of 0, through any number of keep-alive frames between the ticks, the first two ticks are
+   survived and the third closes the connection *)
+Theorem C20_silent_run_closes : forall sha1 cf disk ovf s k1 k2 k3 r1 r2 r3,
+  h_hs_done s = true -> h_keep_alive s = 0 -> only_keepalives k1 -> only_keepalives k2 -> only_keepalives k3 ->
+  run sha1 cf disk ovf s (k1 ++ (ETick, r1) :: k2 ++ (ETick, r2) :: k3) = Some (set_ka s 2) /\
+  hstep sha1 cf disk ovf (set_ka s 2) ETick r3 = HEnd (set_ka s 2) [] false.
+Proof. exact silent_run_closes. Qed.
+(* a valid handshake, once received, stays received (the gate of C08 never closes again) *)
+Theorem C20_handshake_stays : forall sha1 cf disk ovf s ev r s' acts,
+  hstep sha1 cf disk ovf s ev r = HCont s' acts -> h_hs_done s = true -> h_hs_done s' = true.
+Proof. exact hs_done_stays. Qed.
+
 (* termination (KillReq, manager side): the peer's state is forgotten and the piece it held, unless already complete,
    is Missing again and so can be handed to someone else; no other piece's status moves *)
 Theorem C20_release : forall m a p m1, NoDup (map fst (m_peers m)) -> pget (m_peers m) a = Some p -> kill_peer m a = Ok m1 ->
@@ -41,3 +62,6 @@ Print Assumptions C20_live.
 Print Assumptions C20_only_timer_counts.
 Print Assumptions C20_emit.
 Print Assumptions C20_release.
+Print Assumptions C20_live_interval_survives.
+Print Assumptions C20_silent_run_closes.
+Print Assumptions C20_handshake_stays.
